@@ -176,8 +176,32 @@ class FromDuration(Harness):
         obs.append(('unit is seconds', is_seconds(d)))
         return obs
 
+    def prefer(self, ctx):
+        t = ctx['t']
+        return [z3.And(t > -2 ** 65, t < 2 ** 65)]
+
     def native(self, inputs, label):
-        return []
+        return [{'mode': 'from_duration', 'ns': str(int(inputs['t']))}]
+
+    def judge(self, inputs, label, obs):
+        t = int(inputs['t'])
+        o = obs[0]
+        if o.get('outcome') == 'panic':
+            return 'kernel-only', 'panic %s' % o.get('panic')
+        got = kernel_number(o)
+        want = (Fraction(t, 10 ** 9), {'s': 1})
+        if got != want:
+            # lift to a query when the span fits chrono's date range
+            return 'kernel-only', 'from_duration(%d ns) = %s, expected %s' % (t, got, want)
+        return False, 'agrees'
+
+    def vectors(self, rng):
+        return [{'t': x} for x in (0, 1, -1, 999999, 10 ** 9 + 1, -(10 ** 15) - 7, 2 ** 63 + 12345, -(2 ** 64) - 1, (2 ** 63 - 1) * 10 ** 6)]
+
+    def agree(self, vec, outcome, o):
+        r = deref_all(outcome[1])
+        mine = model_number_obs(payload(r))
+        return (kernel_number(o) == mine), 'MIR %s native %s' % (mine, kernel_number(o))
 
 
 class DateRoundTrip(Harness):
@@ -278,7 +302,7 @@ class DateRoundTrip(Harness):
 
     def prefer(self, ctx):
         k, e = ctx['k'], ctx['e']
-        return [e == 0, z3.And(k > -10 ** 10, k < 10 ** 10), k != 0, ctx['d'] == 0]
+        return [e == 0, ctx['d'] == 0, z3.And(k > -2 ** 65, k < 2 ** 65), z3.And(k > -10 ** 10, k < 10 ** 10), k != 0]
 
     def case(self, ctx, vals, label):
         c = Harness.case(self, ctx, vals, label)
@@ -290,11 +314,12 @@ class DateRoundTrip(Harness):
     def native(self, inputs, label):
         t = Fraction(inputs['t'])
         d = conc_dim(inputs, 'u', U)
-        if d != {'s': 1} or abs(t) > 10 ** 9:
+        if d != {'s': 1} or abs(t) > 4 * 10 ** 10:
             return [{'mode': 'to_duration', 'a': number_json(t, d)}]
+        base = '#3000-01-01 00:00:00 +00:00#'
         if self.mode == 'add_sub':
-            return [{'mode': 'query', 'text': '(now + %s s) - now' % frac_text(t)}]
-        return [{'mode': 'query', 'text': '((now - %s s) + %s s) - now' % (frac_text(t), frac_text(t))}]
+            return [{'mode': 'query', 'text': '(%s + %s s) - %s' % (base, frac_text(t), base)}]
+        return [{'mode': 'query', 'text': '((%s - %s s) + %s s) - %s' % (base, frac_text(t), frac_text(t), base)}]
 
     def judge(self, inputs, label, obs):
         t = Fraction(inputs['t'])
